@@ -253,7 +253,9 @@ Definition poss (o : list otok) : list N :=
 Definition to_chunk (o : list otok) : chunk := mkc KAll (uniq [] (negs o)) (uniq [] (poss o)).
 
 (* ---------------------------------------------------------------- encoders for the harness *)
-Definition universe : list N := [10; 11; 12; 13; 14; 100; 101; 200].
+Definition universe : list N := [10; 11; 12; 13; 14; 15; 100; 101; 105; 200; 300; 305].
+  (* a b c d e x_1 | foo_a foo_b foo_x_1 | bar_a | py_t_a py_t_x_1 : USE_EXPAND names and values may
+     themselves contain underscores (python_targets_python3_12, cpu_flags_x86_sse4_1) *)
 Definition pkgs : list pkg := [(0, 1); (0, 2); (1, 1); (1, 2); (2, 1); (2, 2)].
 Definition refused : val := VErr [114; 101; 102; 117; 115; 101; 100].   (* "refused" *)
 (* compact results: a rendered set is the bitmask of [universe] (bit i = i-th flag), token and
